@@ -228,7 +228,13 @@ class _SpecRaggedMixin:
                 ops.append(lambda r, c_, snap=snap: snap(r, z3.IntVal(0)))
             else:
                 raise Unsupported("SpecRagged ufunc with a 1-D array operand (numpy would broadcast it along the rows)")
-        if len(ops) == 1:
+        ab = c.ghost.get("div_abstraction")
+        if name == "floor_divide" and len(ops) == 2 and ab is not None and not isinstance(inputs[1], SpecRagged) \
+                and as_operand(inputs[1])[0] == "scalar" and ab["divisor"].eq(z3.simplify(as_operand(inputs[1])[1])):
+            # division by the registered symbolic positive divisor in factored form (see sym.arr.div_abstraction); bound when the operation is made
+            DIV = ab["DIV"]
+            f = lambda r, c_: DIV(ops[0](r, c_))
+        elif len(ops) == 1:
             f = lambda r, c_: apply_unary(name, ops[0](r, c_))
         else:
             f = lambda r, c_: apply_binary(name, ops[0](r, c_), ops[1](r, c_))
